@@ -52,18 +52,44 @@ fn go<P: Prop>(p: P, a: &Args) -> i32 {
     }
     let shards = std::env::var("VERIF_SHARDS").ok().and_then(|s| s.parse().ok()).unwrap_or(16usize).max(1);
     let opts = RunOpts { tier: a.tier, seed: seed_from_env(), shards, budget_override: a.cases };
-    let s = run_property(&p, &opts);
+    let mut s = run_property(&p, &opts);
+    // ---- engine 2: libFuzzer campaign (thorough tier of the byte-string and history properties)
+    if a.tier == Tier::Thorough && s.exit == 0 && a.cases.is_none() && mctp_verif::campaign::target_for(p.id()).is_some() && std::env::var("MCTP_NO_FUZZ").is_err() {
+        let procs = std::env::var("MCTP_FUZZ_PROCS").ok().and_then(|x| x.parse().ok()).unwrap_or(8usize);
+        let runs = std::env::var("MCTP_FUZZ_RUNS").ok().and_then(|x| x.parse().ok()).unwrap_or(1_500_000u64);
+        let res = mctp_verif::campaign::run_campaign(p.id(), opts.seed, procs, runs, std::time::Duration::from_secs(1500));
+        if res.available {
+            s.evidence["coverage"]["fuzz"] = res.stats.clone();
+        } else {
+            s.evidence["coverage"]["fuzz"] = serde_json::json!({"fuzz": "unavailable", "reason": res.note});
+            println!("note: fuzz engine unavailable for {}: {}", p.id(), res.note);
+        }
+        if let Some(f) = res.found.first() {
+            let fails = vec![Failure::new(f.sig.clone(), f.detail.clone())];
+            let (path, doc) = write_replay(p.id(), opts.seed, "thorough", &f.case, &fails);
+            println!("FAIL property={} sig={} :: {}", p.id(), f.sig, f.detail);
+            println!("VIOLATION property={} replay={}", p.id(), path.display());
+            s.evidence["coverage"]["violation"] = doc;
+            s.evidence["violations"] = serde_json::json!(1);
+            s.exit = 1;
+        } else if res.inconclusive {
+            println!("INCONCLUSIVE property={} fuzz campaign timed out or left an artifact that does not reproduce", p.id());
+            s.exit = 2;
+        }
+    }
     if !a.no_evidence {
         write_evidence(p.id(), &s.evidence);
     }
     let c = &s.evidence["coverage"];
+    let fz = if c["fuzz"]["executions"].is_null() { String::new() } else { format!(" fuzz_executions={}", c["fuzz"]["executions"]) };
     println!(
-        "{} {} seed={} evaluations={} distinct_nontrivial={} wall={:.1}s exit={}",
+        "{} {} seed={} evaluations={} distinct_nontrivial={}{} wall={:.1}s exit={}",
         p.id(),
         a.tier.name(),
         opts.seed,
         c["evaluations"],
         c["distinct_nontrivial"],
+        fz,
         s.evidence["wall_s"].as_f64().unwrap_or(0.0),
         s.exit
     );
